@@ -983,3 +983,68 @@ func VerifBuildPatternRev(fuzzy bool, v2 bool, extended bool, caseMode Case, nor
 	return BuildPattern(NewChunkCache(), make(map[string]*Pattern), fuzzy, fuzzyAlgo, extended, caseMode, normalize, forward,
 		withPos, cacheable, nth, delimiter, rev, runes, map[int32]struct{}{})
 }
+
+// VerifHttpSession serves the requests one after the other with ONE server object, as a running
+// --listen endpoint does, and returns for each the response, whether the GET handler was
+// called, and the action names delivered.
+func VerifHttpSession(apiKey string, requests [][][]byte) (responses []string, getCalled []bool, delivered [][]string) {
+	called := false
+	server := httpServer{
+		apiKey:        []byte(apiKey),
+		actionChannel: make(chan []*action, 1),
+		getHandler: func(p getParams) string {
+			called = true
+			return fmt.Sprintf(`{"limit":%d,"offset":%d}`, p.limit, p.offset)
+		},
+	}
+	for _, chunks := range requests {
+		called = false
+		client, srv := net.Pipe()
+		go func(chunks [][]byte) {
+			for _, c := range chunks {
+				if _, err := client.Write(c); err != nil {
+					break
+				}
+			}
+			client.Close()
+		}(chunks)
+		responses = append(responses, server.handleHttpRequest(srv))
+		srv.Close()
+		getCalled = append(getCalled, called)
+		select {
+		case actions := <-server.actionChannel:
+			delivered = append(delivered, verifActionNames(actions))
+		default:
+			delivered = append(delivered, nil)
+		}
+	}
+	return
+}
+
+// VerifReaderFeedKeep runs Reader.feed with a pusher that keeps every record but, like the item
+// builder does for --header-lines records, answers "not an item" for the first `reject` records.
+// Returns the records as they read when feed returns (views) and as they were when pushed.
+func VerifReaderFeedKeep(src io.Reader, delimNil bool, reject int) (views [][]byte, copies [][]byte) {
+	r := NewReader(func(data []byte) bool {
+		views = append(views, data)
+		copies = append(copies, append([]byte{}, data...))
+		return len(views) > reject
+	}, util.NewEventBox(), nil, delimNil, false)
+	r.feed(src)
+	return
+}
+
+// VerifExtractColorKeepsInput reports whether extractColor left the state it was given (which its
+// callers keep and use again) as it was.
+func VerifExtractColorKeepsInput(str string, prev *VerifAnsiState) bool {
+	if prev == nil {
+		return true
+	}
+	st := &ansiState{fg: tui.Color(prev.Fg), bg: tui.Color(prev.Bg), attr: tui.Attr(prev.Attr), lbg: tui.Color(prev.Lbg)}
+	if prev.HasURL {
+		st.url = &url{uri: prev.URI, params: prev.Params}
+	}
+	before := verifFromState(*st)
+	extractColor(str, st, nil)
+	return verifFromState(*st) == before
+}
